@@ -215,28 +215,31 @@ type poolEvent struct {
 var poolRec struct {
 	mu     sync.Mutex
 	pools  map[any]int
-	bufs   map[*bytes.Buffer]int // also keeps every buffer alive, so that an address is never reused
+	bufs   map[any]int // buffers, compressors, decompressors; also keeps each alive, so that an address is never reused
 	events []poolEvent
 }
 
 func installPoolRecorder() {
 	poolRec.pools = map[any]int{}
-	poolRec.bufs = map[*bytes.Buffer]int{}
-	connect.VerifPoolHook = func(get bool, pool any, buffer *bytes.Buffer) {
+	poolRec.bufs = map[any]int{}
+	note := func(get bool, pool any, object any) {
 		poolRec.mu.Lock()
 		p, ok := poolRec.pools[pool]
 		if !ok {
 			p = len(poolRec.pools) + 1
 			poolRec.pools[pool] = p
 		}
-		b, ok := poolRec.bufs[buffer]
+		b, ok := poolRec.bufs[object]
 		if !ok {
 			b = len(poolRec.bufs) + 1
-			poolRec.bufs[buffer] = b
+			poolRec.bufs[object] = b
 		}
 		poolRec.events = append(poolRec.events, poolEvent{get, p, b})
 		poolRec.mu.Unlock()
 	}
+	connect.VerifPoolHook = func(get bool, pool any, buffer *bytes.Buffer) { note(get, pool, buffer) }
+	// compressors and decompressors are pooled objects too (all implementations in use are pointers)
+	connect.VerifCodecPoolHook = func(get bool, pool any, object any) { note(get, pool, object) }
 }
 
 func writePoolTrace(path string) error {
